@@ -72,30 +72,19 @@ def exclTags (ps : PState) (toks : List String) : List String × Bool :=
     let same := opts.contains "same"
     let uns := opts.contains "unsafe"
     let reuse := (opts.find? (·.startsWith "reuse=")).bind (fun t => (ps.obj (t.drop 6).toString).map (·.2))
-    let f31 := (ordCmpOps.contains op || eqCmpOps.contains op) && a.startsWith "#" &&
-      (match ps.obj b with | some (_, t) => Excl_cmpSameIterSV t reuse false same uns | none => false)
-    let isCmp := ordCmpOps.contains op || eqCmpOps.contains op
-    let reuseId := (opts.find? (·.startsWith "reuse=")).bind (fun t => (ps.obj (t.drop 6).toString).map (·.1))
     let oa := ps.obj a
     let ob := ps.obj b
-    -- F10: tensor-tensor, iterator path, the reuse tensor is the second operand: CopyIter overwrites b before it is read
-    let overlaps (p q : Dense) : Bool := p.win.buf == q.win.buf && p.win.off < q.win.off + q.win.len && q.win.off < p.win.off + p.win.len
-    let f10 := match oa, ob, reuseId with
-      | some (_, x), some (bid, y), some rid =>
-        (rid == bid || (match reuse with | some r => overlaps r y | none => false)) && ((isCmp && same) || (!isCmp && (x.requiresIterator || y.requiresIterator || x.ap.o.col != y.ap.o.col)))
-      | _, _, _ => false
-    -- F10 (same root cause, every kind of destination - incr, reuse, the first operand of an unsafe call): the destination shares storage cells with an operand through a
-    -- *different* access pattern (e.g. the operand is the reshaped parent of the destination view): the in-place
-    -- loop reads operand cells it has already incremented
-    let samePattern (p q : Dense) : Bool := p.win.off == q.win.off && p.win.len == q.win.len && p.ap.shape == q.ap.shape && p.ap.strides == q.ap.strides
-    let incrDst := (opts.find? (·.startsWith "incr=")).bind (fun t => (ps.obj (t.drop 5).toString).map (·.2))
-    let unsDst := if uns then (match oa with | some (_, x) => some x | none => none) else none
-    let f10 := f10 || ([incrDst, unsDst, reuse].any (fun dst => match dst with
-      | some d => [oa, ob].any (fun o => match o with | some (_, x) => overlaps d x && !samePattern d x | none => false)
-      | none => false))
+    -- F10 (what is left of it): the destination of an *unsafe* call - the first operand - shares storage cells with the
+    -- other operand through a different access pattern (e.g. a view of a lazily transposed clone and that clone): the
+    -- in-place loop reads operand cells it has already overwritten. (A reuse / increment tensor that shares memory with
+    -- an operand is handled by `operandFor`: the operand is copied first.)
+    let f10 := uns && reuse.isNone && (match oa, ob with
+      | some (_, x), some (_, y) => sharesMemory x y && !sameAccess x y
+      | _, _ => false)
     let tens := (match oa with | some (_, d) => [d] | none => []) ++ (match ob with | some (_, d) => [d] | none => [])
     let incrD := (opts.find? (·.startsWith "incr=")).bind (fun t => (ps.obj (t.drop 5).toString).map (·.2))
-    let f35 := tens.any (fun t => Excl_reuseOrderFlip t reuse || Excl_reuseOrderFlip t incrD)
+    -- F35: a reuse tensor only; an increment tensor of the other data order is walked with its own iterator
+    let f35 := tens.any (fun t => Excl_reuseOrderFlip t reuse)
     -- F16 (what remains of it): a destination that is a clone of a non-contiguous view (window longer than its size) is
     -- refused by handleFuncOpts (`reuse.len() != expShape.TotalSize()`)
     let f16 := (match reuse with | some r => Excl_reshapeLongWindow r | none => false) ||
@@ -103,16 +92,17 @@ def exclTags (ps : PState) (toks : List String) : List String × Bool :=
     -- F122: the kernels tell scalars from vectors by the length of the storage window: a one-element tensor that sits
     -- on a longer window (`a[0:2:2]`) next to a one-element tensor on a window of one cell is taken for the vector
     let oneOnLong (d : Dense) : Bool := totalSize d.ap.shape == 1 && d.win.len != 1 && !d.ap.shape.isEmpty
-    let f122 := (tens ++ (match reuse with | some r => [r] | none => []) ++ (match incrDst with | some r => [r] | none => [])).any oneOnLong &&
+    let f122 := (tens ++ (match reuse with | some r => [r] | none => []) ++ (match incrD with | some r => [r] | none => [])).any oneOnLong &&
       tens.all (fun d => totalSize d.ap.shape == 1)
     ((if op == "div" && (dt == some "f32" || dt == some "f64") then ["F30"] else []) ++ (if f122 then ["F122"] else []) ++
      (if f16 then ["F16"] else []) ++
-     (if f31 then ["F31"] else []) ++ (if f10 then ["F10"] else []) ++ (if f35 then ["F35"] else []), true)
+     (if f10 then ["F10"] else []) ++ (if f35 then ["F35"] else []), true)
   | "un" :: _ :: _ :: rest =>
     let t := (toks[2]?).bind (fun v => (ps.obj v).map (·.2))
     let dst := (rest.find? (fun t => t.startsWith "reuse=" || t.startsWith "incr=")).bind
       (fun t => (ps.obj ((t.splitOn "=").getLast!)).map (·.2))
-    let f35 := match t with | some t => Excl_reuseOrderFlip t dst | none => false
+    let reuseDst := (rest.find? (fun t => t.startsWith "reuse=")).bind (fun t => (ps.obj (t.drop 6).toString).map (·.2))
+    let f35 := match t with | some t => Excl_reuseOrderFlip t reuseDst | none => false
     let f16 := match dst with | some r => Excl_reshapeLongWindow r | none => false
     ((if f16 then ["F16"] else []) ++
      (if f35 then ["F35"] else []), true)
